@@ -27,12 +27,37 @@ theorem utf8s_append (a b : Str) : utf8s (a ++ b) = utf8s a ++ utf8s b := by
 
 theorem utf8s_single (c : Char) : utf8s [c] = utf8 c.toNat := by simp [utf8s]
 
-theorem simpleEsc_ascii {c e : Char} (h : simpleEsc c = some e) : e.toNat < 128 := by
+theorem lookup_mem {β : Type} : ∀ (l : List (Char × β)) (a : Char) (b : β), l.lookup a = some b → (a, b) ∈ l := by
+  intro l
+  induction l with
+  | nil => intro a b h; simp [List.lookup] at h
+  | cons p ps ih =>
+    intro a b h
+    obtain ⟨k, v⟩ := p
+    by_cases hk : a = k
+    · subst hk; simp [List.lookup] at h; subst h; exact List.mem_cons_self
+    · have hb : (a == k) = false := by simpa using hk
+      simp only [List.lookup, hb] at h
+      exact List.mem_cons_of_mem _ (ih a b h)
+
+/-- every one-character escape of Python (generated table) is a simple escape of C++ with the same value, below 0x80 -/
+theorem simple_table : ∀ p ∈ Generated.PyEscapes.simpleEscapes,
+    cppSimple.lookup p.1 = some p.2 ∧ p.2 < 128 := by decide
+
+theorem simpleEsc_spec {c e : Char} (h : simpleEsc c = some e) :
+    e.toNat < 128 ∧ cppSimple.lookup c = some e.toNat := by
   unfold simpleEsc at h
-  repeat' split at h
-  all_goals first
-    | (injection h with h; subst h; decide)
-    | cases h
+  cases hl : Generated.PyEscapes.simpleEscapes.lookup c with
+  | none => simp [hl] at h
+  | some n =>
+    simp only [hl, Option.map_some, Option.some.injEq] at h
+    subst h
+    obtain ⟨h1, h2⟩ := simple_table (c, n) (lookup_mem _ _ _ hl)
+    simp only at h1 h2
+    rw [toNat_ofNat_ascii h2]
+    exact ⟨h2, h1⟩
+
+theorem simpleEsc_ascii {c e : Char} (h : simpleEsc c = some e) : e.toNat < 128 := (simpleEsc_spec h).1
 
 /-- after `\xhh`, when no hexadecimal digit follows, the greedy C++ escape is complete: its byte, then the rest as plain text -/
 theorem cppGo_hexDone (w : Nat) (cs : Str) (hw : w < 256) (hn : notHexNext cs = true) :
@@ -125,9 +150,9 @@ theorem cpp_sim : ∀ (body : Str) (st : DecState), cppSafeGo st body = true →
             simp only [stepSt, ho, hw, hs] at hih
             have hx : c ≠ 'x' ∧ c ≠ 'u' ∧ c ≠ 'U' := by
               refine ⟨?_, ?_, ?_⟩ <;> (intro hcx; subst hcx; simp [hexWidth] at hw)
-            have he := simpleEsc_ascii hs
+            obtain ⟨he, hcpp⟩ := simpleEsc_spec hs
             have hih' : cppGo .normal cs = some (utf8s (decodeGo .normal cs)) := by simpa [toCpp] using hih
-            simp [toCpp, cppGo, cppStep, decodeGo, stepSt, ho, hw, hs, hx.1, hx.2.1, hx.2.2, hih', utf8s, utf8_ascii he]
+            simp [toCpp, cppGo, cppStep, decodeGo, stepSt, ho, hw, hs, hx.1, hx.2.1, hx.2.2, hih', utf8s, utf8_ascii he, hcpp]
     | oct v n =>
       cases ho : octVal c with
       | some d =>
